@@ -106,6 +106,64 @@ pub fn oracle(tier: &str, seed: u64) -> (u64, Vec<Finding>) {
     let mut fd = Found::new();
     let mut tried = 0u64;
 
+    // ---- libm hypotheses of the binary64 theorems (C17_*_binary64), checked on the live glibc ----------------------
+    // These are NOT properties of the crate: the theorems about the binary64 softmax / logistic / logit / boxcox carry them
+    // as named hypotheses on the recorded table (exp_tbl_unit_range, exp_tbl_one_at_zero, exp_tbl_monotone, exp_tbl_nonneg,
+    // ln_tbl_monotone, ln_tbl_zero_at_one).  A failure is reported under a class "libm:...", which
+    // known_findings.txt lists as a note about the platform's libm (KNOWN-FINDING line + evidence, exit 0), never as a VIOLATION.
+    {
+        let stride = if thorough { 1 } else { 1 << 7 };
+        // exp on the arguments softmax / logistic can pass: every (stride-th) f32 a in [0, 746], at -a and at +a
+        let (mut prev_n, mut prev_p, mut prev_a) = ((-0.0f64).exp(), (0.0f64).exp(), 0.0f64);
+        f32_up(0.0, 746.0, stride, |a| {
+            tried += 1;
+            let (n, p) = ((-a).exp(), a.exp());
+            if !(n.is_finite() && (0.0..=1.0).contains(&n)) { fd.fail("libm:exp-out-of-unit-range", 1.0, format!("glibc exp({:e}) = {:e} is not a finite double in [0,1] although the argument is <= 0 (hypothesis exp_tbl_unit_range)", -a, n), format!("a={:e}", -a)); }
+            if !(p >= 0.0) { fd.fail("libm:exp-negative-or-nan", 1.0, format!("glibc exp({:e}) = {:e} is NaN or negative (hypothesis exp_tbl_nonneg)", a, p), format!("a={:e}", a)); }
+            if !(n <= prev_n) { fd.fail("libm:exp-not-monotone", prev_n - n, format!("glibc exp({:e}) = {:e} > exp({:e}) = {:e} (hypothesis exp_tbl_monotone)", -a, n, -prev_a, prev_n), format!("a={:e} b={:e}", -a, -prev_a)); }
+            if !(p >= prev_p) { fd.fail("libm:exp-not-monotone", prev_p - p, format!("glibc exp({:e}) = {:e} > exp({:e}) = {:e} (hypothesis exp_tbl_monotone)", prev_a, prev_p, a, p), format!("a={:e} b={:e}", prev_a, a)); }
+            prev_n = n; prev_p = p; prev_a = a;
+        });
+        // neighbouring doubles (monotonicity at ulp scale), both signs
+        for c in [1e-3, 0.5, 1.0, 5.0, 20.0, 36.0, 37.0, 100.0, 700.0, 709.0, 744.0] {
+            let mut a: f64 = c;
+            let (mut pn, mut pp, mut pa) = ((-a).exp(), a.exp(), a);
+            for _ in 0..(if thorough { 20000 } else { 2000 }) {
+                a = f64::from_bits(a.to_bits() + 1);
+                tried += 1;
+                let (n, p) = ((-a).exp(), a.exp());
+                if !(n <= pn) { fd.fail("libm:exp-not-monotone", pn - n, format!("glibc exp({:e}) = {:e} > exp({:e}) = {:e} (adjacent doubles)", -a, n, -pa, pn), format!("a={:e} b={:e}", -a, -pa)); }
+                if !(p >= pp) { fd.fail("libm:exp-not-monotone", pp - p, format!("glibc exp({:e}) = {:e} > exp({:e}) = {:e} (adjacent doubles)", pa, pp, a, p), format!("a={:e} b={:e}", pa, a)); }
+                if !(n.is_finite() && (0.0..=1.0).contains(&n)) { fd.fail("libm:exp-out-of-unit-range", 1.0, format!("glibc exp({:e}) = {:e} is not a finite double in [0,1]", -a, n), format!("a={:e}", -a)); }
+                pn = n; pp = p; pa = a;
+            }
+        }
+        tried += 4;
+        if (0.0f64).exp() != 1.0 || (-0.0f64).exp() != 1.0 { fd.fail("libm:exp0-not-one", 1.0, format!("glibc exp(0) = {:e}, exp(-0) = {:e}, expected 1 (hypothesis exp_tbl_one_at_zero)", (0.0f64).exp(), (-0.0f64).exp()), "a=0".into()); }
+        if f64::NEG_INFINITY.exp() != 0.0 { fd.fail("libm:exp-out-of-unit-range", 2.0, format!("glibc exp(-inf) = {:e}, expected 0", f64::NEG_INFINITY.exp()), "a=-inf".into()); }
+        if !(f64::INFINITY.exp() >= 0.0) { fd.fail("libm:exp-negative-or-nan", 2.0, format!("glibc exp(+inf) = {:e}", f64::INFINITY.exp()), "a=inf".into()); }
+        // ln on the odds p / (1 - p) logit can pass: non-decreasing on a grid of (0, f32::MAX], ln 1 = 0, ln +inf = +inf, ln 0 = -inf
+        let (mut prev_l, mut prev_q) = ((0.0f64).ln(), 0.0f64);
+        f32_up(0.0, f32::MAX, if thorough { 1 << 2 } else { 1 << 9 }, |q| {
+            tried += 1;
+            let l = q.ln();
+            if !(l >= prev_l) { fd.fail("libm:ln-not-monotone", if l.is_nan() { 1e300 } else { prev_l - l }, format!("glibc ln({:e}) = {:e} > ln({:e}) = {:e} (hypothesis ln_tbl_monotone)", prev_q, prev_l, q, l), format!("a={:e} b={:e}", prev_q, q)); }
+            prev_l = l; prev_q = q;
+        });
+        for c in [1e-300, 1e-3, 0.25, 0.5, 1.0 - 2000.0 * EPS, 1.0, 2.0, 1e3, 1e300] {
+            let mut q: f64 = c;
+            let (mut pl, mut pq) = (q.ln(), q);
+            for _ in 0..(if thorough { 20000 } else { 2000 }) {
+                q = f64::from_bits(q.to_bits() + 1);
+                tried += 1;
+                let l = q.ln();
+                if !(l >= pl) { fd.fail("libm:ln-not-monotone", pl - l, format!("glibc ln({:e}) = {:e} > ln({:e}) = {:e} (adjacent doubles)", pq, pl, q, l), format!("a={:e} b={:e}", pq, q)); }
+                pl = l; pq = q;
+            }
+        }
+        if !(f64::INFINITY.ln() >= prev_l) { fd.fail("libm:ln-not-monotone", 1.0, format!("glibc ln(+inf) = {:e}", f64::INFINITY.ln()), "a=inf".into()); }
+        if (1.0f64).ln() != 0.0 { fd.fail("libm:ln1-not-zero", 1.0, format!("glibc ln(1) = {:e}, expected 0 (hypothesis ln_tbl_zero_at_one)", (1.0f64).ln()), "a=1".into()); }
+    }
     // ---- logistic: range [0,1], logistic(-x) = 1 - logistic(x), non-decreasing --------------------------------
     {
         let (mut prev_a, mut prev_b, mut prev_x) = (logistic(0.0), logistic(-0.0), 0.0f64);
@@ -217,6 +275,18 @@ pub fn oracle(tier: &str, seed: u64) -> (u64, Vec<Finding>) {
             tried += 1;
             let inp = format!("x={}", vec_s(&x));
             if crumbs_on() { crumb(&inp); }
+            // the libm hypotheses of C17_softmax_{range,order,sum}_binary64 on the arguments that occur: args = x_i - max
+            {
+                let mx = x.iter().cloned().fold(f64::NEG_INFINITY, f64::max);
+                let mut ae: Vec<(f64, f64)> = x.iter().map(|v| { let a = v - mx; (a, a.exp()) }).collect();
+                ae.sort_by(|p, q| p.0.partial_cmp(&q.0).unwrap());
+                for w in 0..ae.len() {
+                    let (a, e) = ae[w];
+                    if !(e.is_finite() && (0.0..=1.0).contains(&e)) { fd.fail("libm:exp-out-of-unit-range", 1.0, format!("glibc exp({:e}) = {:e} is not a finite double in [0,1] (softmax argument x_i - max)", a, e), format!("a={:e}", a)); }
+                    if a == 0.0 && e != 1.0 { fd.fail("libm:exp0-not-one", 1.0, format!("glibc exp({:e}) = {:e}, expected 1", a, e), format!("a={:e}", a)); }
+                    if w > 0 && !(ae[w - 1].1 <= e) { fd.fail("libm:exp-not-monotone", ae[w - 1].1 - e, format!("glibc exp({:e}) = {:e} > exp({:e}) = {:e} (softmax arguments x_i - max)", ae[w - 1].0, ae[w - 1].1, a, e), format!("a={:e} b={:e}", ae[w - 1].0, a)); }
+                }
+            }
             let s = softmax(&x);
             if s.len() != n { fd.fail("softmax:length", 1.0, format!("output length {} for input length {}", s.len(), n), inp.clone()); continue; }
             if s.iter().any(|v| !v.is_finite()) {
@@ -224,6 +294,11 @@ pub fn oracle(tier: &str, seed: u64) -> (u64, Vec<Finding>) {
                 continue;
             }
             if s.iter().any(|v| !(*v >= 0.0)) { fd.fail("softmax:negative", 1.0, "softmax returned a negative component".into(), inp.clone()); }
+            if s.iter().any(|v| !(*v <= 1.0)) { fd.fail("softmax:above-one", 1.0, "softmax returned a component above 1".into(), inp.clone()); }
+            { // a maximal input receives a maximal output (C17_softmax_max_binary64)
+                let jm = (0..n).fold(0usize, |b, i| if x[i] > x[b] { i } else { b });
+                if s.iter().any(|v| !(*v <= s[jm])) { fd.fail("softmax:max-input-not-max-output", 1.0, format!("x[{}] = {:e} is maximal but its output {:e} is exceeded", jm, x[jm], s[jm]), inp.clone()); }
+            }
             let sum: f64 = { let mut hi = 0.0f64; let mut lo = 0.0f64; for v in &s { let t = hi + v; lo += if hi.abs() >= v.abs() { (hi - t) + v } else { (v - t) + hi }; hi = t; } hi + lo };
             let tol = (n as f64 + 8.0) * EPS;
             if !((sum - 1.0).abs() <= tol) { fd.fail("softmax:sum-not-one", (sum - 1.0).abs() / tol, format!("components sum to {:e} (|sum - 1| > {:e}), n = {}", sum, tol, n), inp.clone()); }
